@@ -11,7 +11,8 @@ LEVEL = 'exploration'
 RULE = ('all formulas of the fragment the explainer supports (no since/until; <=2 operators, 3-chains) over bare-variable and variable-vs-constant atoms '
         'x all traces of length 1..4 over {-1,1}; for every trace that violates the formula at time 0 (real evaluate() + explain()), ALL re-assignments '
         'over {-1,1} of the (variable, sample) positions that are NOT reported must still violate the formula at time 0 (reference rho < 0); for a '
-        'satisfied trace nothing may be reported for the input variables; non-trivial = violated case with at least one free position')
+        'satisfied trace nothing may be reported for the input variables; period layer: bounded operators under sampling periods and default units in which one bound unit is not one sample '
+        '(500 ms / s, 1 ms / ms with bounds in s, ...), same oracle with the bounds converted to samples; non-trivial = violated case with at least one free position')
 ASSUMPTIONS = ['sample values restricted to {-1,1} (so every robustness is non-zero); reference rho from vf/refsem.py decides violation of the re-assigned traces']
 
 EX_U = ('not', 'prev', 's_prev', 'next', 's_next', 'rise', 'fall', 'once', 'historically', 'eventually', 'always')
@@ -78,7 +79,91 @@ def shards(tier):
     deep = (deep[::3] if tier == 'quick' else deep) + [('always', None, F.X), ('eventually', None, F.X), ('historically', None, ('next', F.X)),
                                                        ('eventually', (7, 8), F.X), ('always', (0, 8), ('or', F.X, ('next', F.X)))]
     out += [{'formulas': [F.to_json(f) for f in deep[i:i + 2]], 'deep': True} for i in range(0, len(deep), 2)]
+    out += [{'formulas': [], 'period': i} for i in range(len(period_formulas()))]
     return out
+
+
+def period_formulas():
+    """bounded operators of the explainer fragment; their windows in samples depend on the sampling period and the default unit"""
+    X, Y = F.X, F.Y
+    return [('always', (0, 2), X), ('eventually', (1, 2), X), ('once', (0, 1), ('next', ('next', X))), ('historically', (0, 1), ('eventually', (0, 1), X)),
+            ('or', ('always', (0, 1), X), ('eventually', (1, 2), Y)), ('implies', ('eventually', (0, 2), X), ('always', (1, 1), Y)),
+            ('always', (0, 1), ('or', X, ('eventually', (0, 1), Y))), ('not', ('eventually', (0, 2), ('not', X)))]
+
+
+# (configuration of vf/reconf.py, unit suffix of the bounds): one bound unit is 1, 2 or 1/2 ... samples
+PERIOD_CFGS = (('A', ''), ('D', ''), ('D', 's'), ('B', ''), ('B', 'ms'))
+
+
+def period_case(case, spec=None):
+    from .. import reconf
+    f = F.from_json(case['formula'])
+    vs = case['vars']
+    cfg, suffix = case['cfg'], case['suffix']
+    f1 = reconf.in_samples(f, cfg, suffix)
+    w = case['trace']
+    n = len(next(iter(w.values())))
+    if spec is None:
+        spec = reconf.build('dt_off', case['spec'], vs, cfg)
+    k, out = impl.outcome(impl.dt_evaluate, spec, w, reconf.times(cfg, n))
+    if k != 'ok':
+        return 'evaluate() raised %s' % (out,), None
+    k, _ = impl.outcome(spec.explain)
+    if k != 'ok':
+        return 'explain() raised %s' % (_,), None
+    ex = spec.explainer.explanations
+    r0 = out[0][1]
+    ref0 = refsem.ev(f1, w, n)[0]
+    if (r0 < 0) != (ref0 < 0):
+        return None, 'c01'      # the robustness itself is wrong: C01/C08 business
+    fixed = reported_positions(ex, vs, n)
+    if r0 >= 0:
+        if fixed:
+            return 'the specification is satisfied at time 0 (rho %r) but %r is reported' % (r0, {v: ex.get(v) for v in vs}), None
+        return None, 'sat'
+    free = [(v, i) for v in vs for i in range(n) if (v, i) not in fixed]
+    for alt in itertools.product(F.VBOOL, repeat=len(free)):
+        w2 = {v: list(w[v]) for v in vs}
+        for (v, i), val in zip(free, alt):
+            w2[v][i] = val
+        if refsem.ev(f1, w2, n)[0] >= 0:
+            return ('sampling period %r, default unit %r (the bounds denote %s in samples): reported %r is not a sufficient cause: the trace %r coincides with the '
+                    'original on all reported positions but satisfies the specification at time 0'
+                    % (reconf.CONFIGS[cfg][1], reconf.CONFIGS[cfg][0], F.pr(f1), {v: ex.get(v) for v in vs}, w2)), None
+    return None, ('viol', len(free))
+
+
+def run_period(shard, tier, res, mod):
+    from .. import reconf
+    f = period_formulas()[shard['period']]
+    fj = F.to_json(f)
+    vs = sorted(F.fvars(f))
+    res.formulas += 1
+    for cfg, suffix in PERIOD_CFGS:
+        f1 = reconf.in_samples(f, cfg, suffix)
+        if f1 is None:
+            continue
+        text = 'out = ' + F.pr(f, bound=reconf.speller(suffix))
+        spec = reconf.build('dt_off', text, vs, cfg)
+        n = min(int(refsem.horizon(f1)) + 2, 7 if len(vs) == 1 else 4) if tier == 'quick' else min(int(refsem.horizon(f1)) + 3, 8 if len(vs) == 1 else 5)
+        for t in F.traces(n, F.VBOOL, len(vs)):
+            case = {'period_layer': True, 'formula': fj, 'spec': text, 'vars': vs, 'cfg': cfg, 'suffix': suffix, 'trace': F.trace_dict(t, vs)}
+            res.evaluations += 1
+            msg, info = period_case(case, spec)
+            if msg:
+                res.violation(mod, case, msg)
+                res.outcomes['period: ' + msg.split(' ')[0] + ' ' + msg.split(' ')[1]] += 1
+            elif info == 'sat':
+                res.outcomes['satisfied, nothing reported'] += 1
+            elif info == 'c01':
+                res.outcomes['robustness differs from the reference (not judged here)'] += 1
+            else:
+                res.outcomes['violated, sufficient'] += 1
+                res.flags['period_viol'] += 1
+                if info[1] > 0:
+                    res.nontrivial += 1
+            res.digest(text, cfg, t, msg)
+    res.sample({'spec': text, 'configurations': [list(c) for c in PERIOD_CFGS]}, 1)
 
 
 def reported_positions(ex, vs, n):
@@ -127,6 +212,8 @@ def check_case(case, spec=None):
 
 def run_shard(shard, tier, res):
     mod = sys.modules[__name__]
+    if 'period' in shard:
+        return run_period(shard, tier, res, mod)
     for fj in shard['formulas']:
         f = F.from_json(fj)
         vs = sorted(F.fvars(f))
@@ -176,6 +263,9 @@ def run_shard(shard, tier, res):
 
 
 def replay(case):
+    if case.get('period_layer'):
+        m, _ = period_case(case)
+        return [m] if m else []
     m, _ = check_case(case)
     return [m] if m else []
 
